@@ -215,7 +215,7 @@ class ItemList:
             check_1d(self._numbers, getattr(self, "_len", None), label="item_nums")
             self._len = self._numbers.shape[0]
             # clear IDs if we got them from the source
-            if source is not None and source._ids is not None:
+            if source is not None and source._ids is not None and item_ids is None:
                 del self._ids
 
         if (
